@@ -107,6 +107,64 @@ class Mutator(ast.NodeTransformer):
         return n
 
 
+class _Fixed:
+    """stands in for the rng: always mutate, always the k-th alternative"""
+
+    def __init__(self, k):
+        self.k = k
+
+    def random(self):
+        return 0.0
+
+    def randrange(self, n):
+        return self.k % n
+
+    def choice(self, seq):
+        return seq[self.k % len(seq)]
+
+
+KINDS = {"Call": 8, "If": 5, "Slice": 3, "Compare": 1, "With": 1, "Lambda": 1, "Return": 1}
+
+
+class OneEdit(Mutator):
+    """The k-th edit of one kind applied at EVERY site of that kind (systematic counterpart of the random mutants)."""
+
+    def __init__(self, kind: str, k: int):
+        super().__init__(_Fixed(k), rate=1.0)
+        for other in KINDS:
+            if other != kind:
+                setattr(self, "visit_" + other, self.generic_visit)
+
+
+def systematic_mutants(ctx: Ctx, outdir: Path, kinds: list[str]) -> list[str]:
+    import warnings
+    warnings.filterwarnings("ignore", category=SyntaxWarning)
+    seeds = sorted(glob.glob(str(REPO / "test" / "data" / "err_*.py")))
+    out, seen = [], set()
+    for seed in seeds:
+        try:
+            base = ast.parse(Path(seed).read_text())
+        except SyntaxError:
+            continue
+        seen.add(ast.unparse(base))
+        for kind in kinds:
+            for k in range(KINDS[kind]):
+                try:
+                    tree = ast.fix_missing_locations(OneEdit(kind, k).visit(ast.parse(Path(seed).read_text())))
+                    body = ast.unparse(tree)
+                    src = "import sys\nfrom typing import TYPE_CHECKING\nARGS = []\nKW = {}\n" + body + "\n"
+                    compile(src, "m", "exec")
+                except Exception:  # noqa: BLE001
+                    continue
+                if body in seen:
+                    continue
+                seen.add(body)
+                p = outdir / f"sys_{kind}{k}_{Path(seed).stem}.py"
+                p.write_text(src)
+                out.append(str(p))
+    return out
+
+
 def mutants(ctx: Ctx, outdir: Path, n: int) -> list[str]:
     seeds = sorted(glob.glob(str(REPO / "test" / "data" / "err_*.py")))
     out = []
@@ -246,6 +304,8 @@ def run(ctx: Ctx) -> None:
         kitchen += sorted(glob.glob(str(VERIF / "corpus/C03/regress_*.py")))   # minimised earlier failures run first
         data = sorted(glob.glob(str(REPO / "test" / "data*" / "*.py")))
         muts = mutants(ctx, td, ctx.budget(60, 1500))
+        smuts = systematic_mutants(ctx, td, list(KINDS))
+        ctx.count("systematic-mutants", len(smuts))
         std = stdlib_sample(ctx, ctx.budget(48, 100000))
         ctx.count("mutants", len(muts))
         ctx.count("stdlib-files", len(std))
@@ -253,7 +313,7 @@ def run(ctx: Ctx) -> None:
 
         def chunks(xs, n):
             return [xs[i:i + n] for i in range(0, len(xs), n)]
-        batches = [kitchen] + chunks(data, 25) + chunks(muts, 10) + chunks(std, 8)
+        batches = [kitchen] + chunks(data, 25) + chunks(muts, 10) + chunks(smuts, 12) + chunks(std, 8)
         res = L.lint_batches(batches, ["--enable-all", "--quiet"], workers=14, timeout=ctx.budget(900, 14000))
         for r in res:
             for f in r["files"]:
